@@ -212,7 +212,7 @@ QueryDec(t, plus) == IF \E k \in 1..Len(t) : t[k] \in {38, 35} THEN FAIL ELSE Pc
 (* ---------- the property-level predicate ---------- *)
 HtmlCtx == {"html_text", "attr_dq", "attr_sq", "attr_unq"}
 JsCtx   == {"js_script_dq", "js_file_sq", "json_file"}
-CssCtx  == {"css_style_dq", "css_file_sq"}
+CssCtx  == {"css_style_dq", "css_file_sq", "css_file_dq_tail"}
 UrlCtx  == {"url_query_dq", "url_path_dq", "url_path_unq"}
 AllCtx  == HtmlCtx \cup JsCtx \cup CssCtx \cup UrlCtx
 UnqStop == {9, 10, 12, 13, 32, 62}                     \* an unquoted attribute value ends at whitespace or '>'
@@ -231,6 +231,11 @@ Decode(ctx, out) ==
     [] ctx = "json_file"    -> DecJSON(out, 1)
     [] ctx = "css_style_dq" -> DecCSS(out, 34)
     [] ctx = "css_file_sq"  -> DecCSS(out, 39)
+    [] ctx = "css_file_dq_tail" -> DecCSS(out, 34)
+\* In context css_file_dq_tail the template has the fixed text "c" between the value and the closing
+\* quote (a hex letter right after the value: CSS escapes have variable length, so what follows the
+\* value matters); the observed slice includes it, and must decode to s followed by "c".
+TailOf(ctx) == IF ctx = "css_file_dq_tail" THEN <<99>> ELSE <<>>
 
 \* "...except where the target language itself cannot represent a code point".  The complete list:
 \*  E1  NUL in HTML (text: dropped by the tree builder; attribute value / &#0;: U+FFFD; our decoder
@@ -276,7 +281,7 @@ Ok(ctx, s, out) ==
          LET h == DecHTML(out, 1, TRUE, IF ctx = "url_path_dq" THEN {34} ELSE UnqStop) IN
          ~IsFail(h) /\ (LET d == PctDec(h, 1, FALSE) IN d = s \/ d = PctDec(s, 1, FALSE))
     [] OTHER ->
-         LET d == Decode(ctx, out) IN ~IsFail(d) /\ Match(Kind(ctx), d, s)
+         LET d == Decode(ctx, out) IN ~IsFail(d) /\ Match(Kind(ctx), d, s \o TailOf(ctx))
 
 (* ======================================================================================= *)
 (* (ii) IMPLEMENTATION-SHAPED MODEL of internal/runtime/escapers.go (+ dispatch of renderer.go) *)
@@ -403,14 +408,14 @@ QueryEscape(s) == QueryLoop(s, 0, 0, <<>>)
 \* the character-reference decoding of htmlEscape(s)
 UrlPre(s) == DecHTML(HtmlEscape(s), 1, FALSE, {})
 
-\* ---- renderer.Show dispatch for a string value in the twelve templates of the driver
+\* ---- renderer.Show dispatch for a string value in the thirteen templates of the driver
 Model(ctx, s, hi) ==
   CASE ctx = "html_text"    -> HtmlEscape(s)                       \* showInHTML
     [] ctx = "attr_dq"      -> AttributeEscape(s, TRUE, TRUE)      \* showInAttribute(quoted)
     [] ctx = "attr_sq"      -> AttributeEscape(s, TRUE, TRUE)
     [] ctx = "attr_unq"     -> AttributeEscape(s, TRUE, FALSE)
     [] ctx \in JsCtx        -> JsStringEscape(s)                   \* showInJSString / showInJSONString
-    [] ctx \in CssCtx       -> CssStringEscape(s, hi)              \* showInCSSString
+    [] ctx \in CssCtx       -> CssStringEscape(s, hi) \o TailOf(ctx)   \* showInCSSString, then the template's fixed text
     [] ctx = "url_query_dq" -> QueryEscape(UrlPre(s))              \* r.query set by the text "/p?q="
     [] ctx = "url_path_dq"  -> PathEscape(UrlPre(s), TRUE)
     [] ctx = "url_path_unq" -> PathEscape(UrlPre(s), FALSE)
